@@ -90,9 +90,76 @@ class P(b1.Plugin):
         return r
 
 
+def marker_cases(rng, n):
+    """(source, must_be_accepted): unions whose Debug / PartialEq / Hash attribute carries `unsafe` first, elsewhere, or not at all"""
+    out = []
+    for i in range(n):
+        t = rng.choice(["Debug", "PartialEq", "Hash"])
+        others = {"Debug": ["name = Ren", "name(Ren)", "name = false", "rename = \"Ren\"", "name = \"Ren\""], "PartialEq": [], "Hash": []}[t]
+        k = rng.random()
+        if k < 0.25:
+            params, ok = ["unsafe"] + rng.sample(others, min(len(others), rng.randint(0, 1))), True
+        elif k < 0.5 and others:
+            ps = rng.sample(others, 1)
+            params, ok = ps + ["unsafe"], False                     # marker present but not first
+        elif k < 0.65:
+            params, ok = rng.sample(others, min(len(others), 1)), False   # no marker
+        elif k < 0.8:
+            params, ok = None, False                                # bare path `Debug`
+        elif k < 0.9:
+            params, ok = ["unsafe", "unsafe"], False
+        else:
+            params, ok = ["r#unsafe"] if rng.random() < 0.5 else ["Unsafe"], False
+        meta = t if params is None else "%s(%s%s)" % (t, ", ".join(params), "," if params and rng.random() < 0.2 else "")
+        extra = rng.choice(["", "", ", Clone, Copy", ", Eq"]) if t == "PartialEq" else rng.choice(["", ", Clone, Copy"])
+        if ", Eq" in extra and not ok:
+            extra = ""
+        nf = rng.randint(1, 3)
+        fields = ", ".join("%s: %s" % (gen.FIELD_NAMES[j], rng.choice(["u8", "[u8; 4]", "u32", "f32"])) for j in range(nf))
+        out.append(("#[derive(Educe)]\n#[educe(%s%s)]\npub union U%d { %s }" % (meta, extra, i, fields), ok))
+    return out
+
+
+def refusal_tie(tie, rng, n):
+    from .. import attr
+    cases = marker_cases(rng, n)
+    try:
+        real = attr.expand_real([(i, s) for i, (s, _) in enumerate(cases)])
+        model = attr.expand_model(real)
+    except (common.BuildError, RuntimeError) as e:
+        tie["broken"].append("B4: " + str(e)[:400])
+        return
+    hist = {"accepted": 0, "refused": 0}
+    for i, (src, ok) in enumerate(cases):
+        r = real[i]
+        tie["evaluations"] += 1
+        if ok and r["outcome"] != "ok":
+            tie["failing"].append({"what": "a union attribute with `unsafe` as its first parameter is refused", "rust_source": src,
+                                   "observed": r.get("message", r["outcome"])[:300], "expected_spec": "accepted"})
+        elif not ok and r["outcome"] == "ok":
+            tie["failing"].append({"what": "a union impl is generated although `unsafe` is not the first parameter of the attribute",
+                                   "rust_source": src, "observed": "accepted: " + r["tokens"][:300], "expected_spec": "refused with a diagnostic"})
+        elif not ok and r["outcome"] not in ("err",):
+            tie["failing"].append({"what": "a union attribute without the marker is not answered with a diagnostic", "rust_source": src,
+                                   "observed": r["outcome"] + ": " + r.get("message", "")[:200], "expected_spec": "refused with a diagnostic"})
+        else:
+            hist["accepted" if ok else "refused"] += 1
+            bad = attr.compare(r, model.get(i)) if model.get(i) else ["no model result"]
+            if bad:
+                tie["broken"].append("B4: " + bad[0][:200])
+                tie["broken_details"].append({"rust_source": src, "disagreement": bad})
+    tie["extra"]["marker_cases"] = hist
+    tie["rule"] += ("; marker tie (in-process): unions whose Debug / PartialEq / Hash attribute has `unsafe` first (accepted), after another "
+                    "parameter, missing, doubled, or misspelt (each must be refused with a diagnostic), model outcome compared")
+
+
 def main(tier):
     t0 = time.time()
     proof = common.proof_obligations("C20")
     n_defs = 150 if tier == "quick" else 2000
     tie = b1.run_b1("C20", P(), n_defs, 1, common.seed())
+    import random
+    refusal_tie(tie, random.Random(common.seed() + 7), 200 if tier == "quick" else 3000)
+    tie["failing"] = tie["failing"][:4]
+    tie["broken"] = tie["broken"][:4]
     return common.finish("C20", tier, t0, proof, tie)
